@@ -108,7 +108,14 @@ pub fn peak_live() -> u64 {
 /// Serve cases from stdin until EOF. Line format: `<id> <entry> <hex input>`; `exec` runs the
 /// real entry point and returns a short description ("ok ..." / "err ..."). Panics are caught.
 pub fn serve(exec: impl Fn(&str, &[u8]) -> String) -> ! {
+    serve_with_init(|| {}, exec)
+}
+
+/// Like `serve`, with a warm-up step (building seed tables etc.) that runs before any case is
+/// read, so that its time and allocations are not attributed to a case.
+pub fn serve_with_init(init: impl FnOnce(), exec: impl Fn(&str, &[u8]) -> String) -> ! {
     crate::util::quiet_panics();
+    init();
     // address space limit: runaway allocations fail fast instead of exhausting the machine
     unsafe {
         let lim = libc::rlimit { rlim_cur: 6 << 30, rlim_max: 6 << 30 };
@@ -172,7 +179,21 @@ pub struct Outcome {
 pub struct Case {
     pub id: u64,
     pub entry: &'static str,
+    /// what is sent to the worker (the bytes themselves or a compact descriptor of them)
     pub input: Vec<u8>,
+    /// size of the input the entry point really receives (budgets are functions of this size);
+    /// 0 = use `input.len()`
+    pub logical_len: usize,
+}
+
+impl Case {
+    pub fn size(&self) -> usize {
+        if self.logical_len > 0 {
+            self.logical_len
+        } else {
+            self.input.len()
+        }
+    }
 }
 
 pub fn time_budget(input_len: usize) -> Duration {
@@ -267,7 +288,7 @@ pub fn run_cases(cases: Vec<Case>, n_workers: usize, extra_args: &[String], on_r
                                 Some(c) => c.clone(),
                                 None => break,
                             };
-                            let budget = time_budget(cur.input.len());
+                            let budget = time_budget(cur.size());
                             let mut begun = false;
                             let t0 = Instant::now();
                             let mut outcome: Option<Outcome> = None;
@@ -289,9 +310,9 @@ pub fn run_cases(cases: Vec<Case>, n_workers: usize, extra_args: &[String], on_r
                                             let detail = it.next().unwrap_or("").to_string();
                                             let mut cl = if class == "panic" { Class::Panic } else { Class::Returned };
                                             let mut detail = detail;
-                                            if cl == Class::Returned && max_alloc > alloc_allowance(cur.input.len()) {
+                                            if cl == Class::Returned && max_alloc > alloc_allowance(cur.size()) {
                                                 cl = Class::Oversize;
-                                                detail = format!("single allocation request of {} bytes for an input of {} bytes ({})", max_alloc, cur.input.len(), detail);
+                                                detail = format!("single allocation request of {} bytes for an input of {} bytes ({})", max_alloc, cur.size(), detail);
                                             }
                                             outcome = Some(Outcome { class: cl, detail, max_alloc, millis });
                                             break;
